@@ -1,7 +1,7 @@
 CONSTANTS
   NN = 5
   MinNP = 2
-  MaxNP = 3
+  MaxNP = 2
   Sym = TRUE
 SPECIFICATION Spec
 INVARIANTS GlobalPartitionInv ClosedFormInv CountInv GhostStateInv
